@@ -22,6 +22,7 @@ from .. import agent as agent_mod
 from .. import ber
 from ..rig import OID, World
 from puresnmp import V3, Auth, Client, Priv
+from puresnmp.exc import SnmpError
 
 PROP = "C14"
 LEVEL = "exploration"
@@ -73,7 +74,31 @@ for _i in range(6):
 for _i in range(1, 171):
     DB[BASE + (55, 1, _i)] = ("int", _i)  # a long column: 170 instances
 
-OPKINDS = ("get", "multiget", "getnext", "set", "walk", "bulkwalk", "table", "walk9", "bulkget", "multiwalk2")
+# a stretch where the device does not advance (GETNEXT of STUCK answers STUCK again), and
+# an object it refuses to write: operations that END IN AN ERROR are operations, too
+DB[BASE + (66, 1, 1)] = ("int", 1)
+DB[BASE + (66, 1, 2)] = ("int", 2)
+DB[BASE + (66, 1, 3)] = ("int", 3)
+STUCK = BASE + (66, 1, 2)
+READONLY = BASE + (98, 0)
+DB[READONLY] = ("int", 7)
+EXC_OBJECTS = []  # (operation id, exception object) of this execution
+
+
+def device_quirks(req, resp):
+    if req["type"] == ber.PDU_GETNEXT and [tuple(o) for o, _ in req["varbinds"]] == [STUCK]:
+        return dict(resp, varbinds=[(STUCK, ("int", 2))])
+    if req["type"] == ber.PDU_SET and any(tuple(o) == READONLY for o, _ in req["varbinds"]):
+        return dict(resp, error_status=17, error_index=1, varbinds=list(req["varbinds"]))
+    return resp
+
+
+def _raised(exc):
+    EXC_OBJECTS.append((OPVAR.get(), exc))
+    return ("raised", type(exc).__name__, getattr(exc, "error_status", None), str(getattr(exc, "offending_oid", "")))
+
+
+OPKINDS = ("get", "multiget", "getnext", "set", "walk", "bulkwalk", "table", "walk9", "bulkget", "multiwalk2", "stuckwalk-strict", "stuckwalk-warn", "set-refused")
 
 # argument lists that belong to the caller and are passed to SEVERAL concurrent
 # operations of one execution (a poller keeps its OID lists); rebuilt per execution
@@ -113,6 +138,19 @@ async def do_op(client, kind, slot):
         return ([(rig.oid_t(k), rig.to_tuple(v)) for k, v in r.scalars.items()], [(rig.oid_t(k), rig.to_tuple(v)) for k, v in r.listing.items()])
     if kind == "multiwalk2":
         return [(rig.oid_t(vb.oid), rig.to_tuple(vb.value)) async for vb in client.multiwalk(shared_lists()["roots"])]
+    if kind in ("stuckwalk-strict", "stuckwalk-warn"):
+        rows = []
+        try:
+            async for vb in client.walk(OID(BASE + (66,)), errors=rig.lenient() if kind.endswith("warn") else "".join(("str", "ict"))):
+                rows.append((rig.oid_t(vb.oid), rig.to_tuple(vb.value)))
+        except SnmpError as exc:
+            return (rows, _raised(exc))
+        return (rows, "ended normally")
+    if kind == "set-refused":
+        try:
+            return ("data", rig.to_tuple(await client.set(OID(READONLY), rig.from_tuple(("int", 8)))))
+        except SnmpError as exc:
+            return _raised(exc)
     if kind == "table":
         rows = await client.table(OID(BASE + (7, 1)))
         return sorted([{k: (v if k == "0" else rig.to_tuple(v)) for k, v in r.items()} for r in rows], key=lambda r: r["0"])
@@ -148,6 +186,7 @@ async def run_schedule(mode, ops, prefix, rng, events):
     # by one second on every read, so that concurrent operations carry different
     # request ids (state shared between operations becomes observable)
     agent = agent_mod.Agent(DB, users=users, clock=rig.env.Clock())
+    agent.pdu_hook = device_quirks
     agents = {"192.0.2.1": agent, "192.0.2.2": agent}
     if mode == "v3-fresh-two-step":
         # RFC 3414 section 4 discovery in two steps: the unauthenticated report reveals
@@ -164,6 +203,7 @@ async def run_schedule(mode, ops, prefix, rng, events):
         if mode == "v3-two-engines":
             # two devices (different engine ids) that know the same user, one client each
             agent_b = agent_mod.Agent(DB, users=users, clock=rig.env.Clock(), engine_id=bytes.fromhex("80001f8804") + b"vf-agent-B", boots=7)
+            agent_b.pdu_hook = device_quirks
             agents["192.0.2.2"] = agent_b
             clients.append(Client("192.0.2.2", rig.credentials_for("v3-sha1-priv"), sender=parker))
     results = {}
@@ -261,6 +301,7 @@ async def run_schedule(mode, ops, prefix, rng, events):
 def execute(mode, ops, prefix, rng):
     events = []
     SHARED.clear()
+    del EXC_OBJECTS[:]
     rig.env.CLOCK.freeze(1_700_000_000.0)
     if CLOCK_MODE[0] == "stepping":
         # every read advances: concurrent operations carry DIFFERENT request ids
@@ -301,6 +342,7 @@ def solo(mode, kind, slot):
     key = (mode.startswith("v3"), kind, slot)
     if key not in _SOLO:
         w = World("v3-sha1-priv" if mode.startswith("v3") else "v2c", DB)
+        w.agent.pdu_hook = device_quirks
         _SOLO[key] = ("ok", rig.drive(do_op(w.client, kind, slot)))
     return _SOLO[key]
 
@@ -322,6 +364,15 @@ def judge(R, case, mode, ops, results, order, agent, clients, events):
             R.violation(dict(case, order=order), "operation %d (%s) got %r under answer order %r; running alone it gets %r" % (i, kind, str(got)[:160], order, str(want[1])[:160]), None)
             return False
         R.mon["ops_equal_to_solo"] += 1
+    # operations that ended in an error: each has an exception object of its own (an
+    # exception carries per-raise state - traceback, context, notes - so one object raised
+    # into two operations shows each of them the other's failure)
+    for a in range(len(EXC_OBJECTS)):
+        for b in range(a + 1, len(EXC_OBJECTS)):
+            if EXC_OBJECTS[a][1] is EXC_OBJECTS[b][1] and EXC_OBJECTS[a][0] != EXC_OBJECTS[b][0]:
+                R.violation(dict(case, order=order), "operations %r and %r were handed the very same exception object %r" % (EXC_OBJECTS[a][0], EXC_OBJECTS[b][0], EXC_OBJECTS[a][1]), None)
+                return False
+    R.mon["failed_operations_with_an_exception_of_their_own"] += len(EXC_OBJECTS)
     if events:
         R.violation(dict(case, order=order), "event-loop hygiene: %r" % events[:3], None)
         return False
@@ -408,6 +459,18 @@ def run(R):
         ("v3-primed", ("bulkget", "multiwalk2", "bulkget")),
         ("v2c", ("multiwalk2", "multiwalk2")),
     ]
+    failing = [
+        ("v2c", ("stuckwalk-strict", "stuckwalk-warn")),
+        ("v2c", ("stuckwalk-warn", "stuckwalk-strict")),
+        ("v2c", ("stuckwalk-warn", "stuckwalk-strict", "stuckwalk-warn")),
+        ("v2c", ("stuckwalk-strict", "walk9", "stuckwalk-warn")),
+        ("v3-primed", ("stuckwalk-strict", "stuckwalk-warn")),
+        ("v2c", ("set-refused", "set-refused")),
+        ("v2c", ("set-refused", "get", "set-refused")),
+        ("v3-primed", ("set-refused", "set-refused", "set")),
+        ("v3-two-engines", ("set-refused", "set-refused")),
+        ("v3-two-clients", ("set-refused", "stuckwalk-strict", "set-refused")),
+    ]
     k = 0
     # the small deterministic blocks first: a time cap must never starve them
     # a slow operation stays unanswered while a long walk (170 requests) goes by
@@ -433,6 +496,14 @@ def run(R):
         if R.mine(k):
             explore(R, mode, ops, MAX_ENUM[R.tier] // 2, 20, k, clock="ticking")
             R.mon["ticking_clock_sets"] += 1
+    # operations that end in an error (a device that stops advancing under a strict and a
+    # lenient walk at once, refused SETs): each ends the way it ends alone
+    for mode, ops in failing:
+        for clock in ("stepping", "frozen"):
+            k += 1
+            if R.mine(k):
+                explore(R, mode, ops, MAX_ENUM[R.tier] // 4, 10, k, clock=clock, frac=0.5)
+                R.mon["sets_with_failing_operations"] += 1
     # one operation is cancelled by its caller while the others are in flight
     for mode, ops in (("v2c", ("get", "walk", "set")), ("v3-fresh", ("get", "get", "set")), ("v3-fresh", ("walk9", "get")), ("v3-primed", ("get", "walk", "set")), ("v3-two-clients", ("get", "set", "getnext"))):
         for cancel_op in range(len(ops)):
